@@ -21,6 +21,9 @@ func main() {
 		}
 		os.Exit(gossipval.StressChild(seed))
 	}
+	if os.Args[1] == "__c05worker" { // worker child process of C05 (crash isolation)
+		os.Exit(gossipval.WorkerChild(os.Args[2:]))
+	}
 	c := core.NewCtx(os.Args[1], os.Args[2:])
 	code := core.ExitInconclusive
 	switch os.Args[1] {
